@@ -15,6 +15,7 @@ import (
 	"encoding/hex"
 	"encoding/json"
 	"fmt"
+	"log/slog"
 	"net"
 	"strings"
 	"time"
@@ -31,6 +32,15 @@ import (
 
 type polCase struct {
 	IP string `json:"ip"`
+	// where in the run the address was judged (a policy that keeps state between calls judges by
+	// history: the replay then repeats this worker's whole run)
+	Shard   int    `json:"shard"`
+	NShards int    `json:"nshards"`
+	Tier    string `json:"tier"`
+}
+
+func polCaseOf(ctx *engine.Ctx, ip net.IP) polCase {
+	return polCase{IP: fmt.Sprintf("%x", []byte(ip)), Shard: ctx.Shard, NShards: ctx.NShards, Tier: ctx.Tier}
 }
 
 func checkIP(ctx *engine.Ctx, unit string, ip net.IP) {
@@ -38,9 +48,9 @@ func checkIP(ctx *engine.Ctx, unit string, ip net.IP) {
 	err := onet.RequirePublicIP(ip)
 	switch {
 	case c == reject && err == nil:
-		ctx.Fail(unit, "nonpublic-accepted{"+blockOf(ip)+"}", fmt.Sprintf("RequirePublicIP(%v) [% x] accepted a non-public address", ip, []byte(ip)), polCase{fmt.Sprintf("%x", []byte(ip))}, nil)
+		ctx.Fail(unit, "nonpublic-accepted{"+blockOf(ip)+"}", fmt.Sprintf("RequirePublicIP(%v) [% x] accepted a non-public address", ip, []byte(ip)), polCaseOf(ctx, ip), nil)
 	case c == accept && err != nil:
-		ctx.Fail(unit, "public-rejected{"+blockOf(ip)+"}", fmt.Sprintf("RequirePublicIP(%v) rejected an ordinary public address: %v", ip, err), polCase{fmt.Sprintf("%x", []byte(ip))}, nil)
+		ctx.Fail(unit, "public-rejected{"+blockOf(ip)+"}", fmt.Sprintf("RequirePublicIP(%v) rejected an ordinary public address: %v", ip, err), polCaseOf(ctx, ip), nil)
 	}
 }
 
@@ -179,9 +189,10 @@ type e2eCase struct {
 	Addr   string   `json:"addr"` // address (or name)
 	Answer []string `json:"answer,omitempty"`
 	Cipher int      `json:"cipher"`
-	Pos    int      `json:"pos,omitempty"` // udp: packet position of the probe in the association (0 = first)
-	Rep    int      `json:"rep,omitempty"` // udp: the probe is sent this many times in a row (0 = once)
-	Svc    bool     `json:"service,omitempty"` // tcp: the connection is handled by a service built with NewShadowsocksService (as the server does)
+	Pos    int      `json:"pos,omitempty"`           // udp: packet position of the probe in the association (0 = first)
+	Rep    int      `json:"rep,omitempty"`           // udp: the probe is sent this many times in a row (0 = once)
+	Debug  bool     `json:"debug_logging,omitempty"` // tcp: the handler / service has a debug-enabled logger (the server's -verbose)
+	Svc    bool     `json:"service,omitempty"`       // tcp: the connection is handled by a service built with NewShadowsocksService (as the server does)
 }
 
 var rejectReps = []string{"127.0.0.1", "127.255.255.254", "10.1.2.3", "172.16.0.1", "172.31.255.255", "192.168.1.1", "100.64.0.1", "100.127.255.255", "169.254.169.254", "0.0.0.0", "224.0.0.1", "239.255.255.255", "255.255.255.255",
@@ -256,8 +267,13 @@ func tcpScenario(c e2eCase) *engine.Scenario {
 		}
 		key := world.MakeKey("k", world.Ciphers[c.Cipher], "secret")
 		w := world.NewTCP([]*world.Key{key}, 0, 59*time.Second)
+		var lg *slog.Logger
+		if c.Debug {
+			lg = slog.New(hk.LogRecorder())
+			w.H.SetLogger(lg)
+		}
 		if c.Svc {
-			w.UseService()
+			w.UseService(lg)
 		}
 		w.Start()
 		// a listener on every candidate so that a mistaken connect would even succeed
@@ -380,6 +396,11 @@ func tcpCases() []e2eCase {
 	// the same through a service built the way the server builds it
 	for _, c := range append([]e2eCase{}, out...) {
 		c.Svc = true
+		out = append(out, c)
+	}
+	// and both with a debug-enabled logger (what -verbose gives the handler)
+	for _, c := range append([]e2eCase{}, out...) {
+		c.Debug = true
 		out = append(out, c)
 	}
 	return out
@@ -625,6 +646,54 @@ func firstUse() *engine.Scenario {
 	return sc
 }
 
+// history: the verdict on an address does not depend on what the process validated before. Every
+// ordered pair (a, b) of representative addresses, each in a process of its own (whatever the
+// policy keeps between calls starts from scratch): a, b, then a again.
+func history(a, b string) *engine.Scenario {
+	var errs [3]error
+	sc := &engine.Scenario{Name: "policy-history|" + a + "|" + b, Fresh: true}
+	sc.Body = func() {
+		errs = [3]error{}
+		for i, x := range []string{a, b, a} {
+			errs[i] = onet.RequirePublicIP(net.ParseIP(x))
+		}
+	}
+	public := func(x string) bool {
+		for _, p := range acceptReps {
+			if p == x {
+				return true
+			}
+		}
+		return false
+	}
+	sc.Check = func(x *vrt.Exec) (string, bool, []*engine.Finding) {
+		fs := hk.Generic(x, hk.Opts{})
+		if len(fs) == 0 {
+			for i, addr := range []string{a, b, a} {
+				if public(addr) && errs[i] != nil {
+					fs = append(fs, &engine.Finding{Sig: "policy-rejects-public{history}", Msg: fmt.Sprintf("validations %s, %s, %s in a fresh process: number %d (%s, public) was rejected: %v", a, b, a, i+1, addr, errs[i])})
+				}
+				if !public(addr) && errs[i] == nil {
+					fs = append(fs, &engine.Finding{Sig: "policy-accepts-nonpublic{history}", Msg: fmt.Sprintf("validations %s, %s, %s in a fresh process: number %d (%s, not public) was accepted", a, b, a, i+1, addr)})
+				}
+			}
+		}
+		return fmt.Sprint(errs[0] == nil, errs[1] == nil, errs[2] == nil), true, fs
+	}
+	return sc
+}
+
+func historyPairs(tier string) [][2]string {
+	reps := append(append([]string{}, rejectReps...), acceptReps[:3]...)
+	var out [][2]string
+	for _, a := range reps {
+		for _, b := range reps {
+			out = append(out, [2]string{a, b})
+		}
+	}
+	return out
+}
+
 func dialPairs() []*engine.Scenario {
 	return []*engine.Scenario{
 		dialPair("10.1.2.3", "93.184.216.34", true),
@@ -653,6 +722,16 @@ func init() {
 			engine.ExploreS(ctx, sc, engine.SConfig{Bound: bound, Shard: ctx.Shard, NShards: ctx.NShards, Deadline: ctx.Deadline})
 		}
 		engine.ExploreS(ctx, firstUse(), engine.SConfig{Bound: bound, Shard: ctx.Shard, NShards: ctx.NShards, Deadline: ctx.Deadline})
+		for i, p := range historyPairs(ctx.Tier) {
+			if !ctx.Mine(int64(i)) {
+				continue
+			}
+			if ctx.Expired() {
+				ctx.Incomplete("policy-history", "policy-history: time cap hit at pair %d", i)
+				break
+			}
+			engine.ExploreS(ctx, history(p[0], p[1]), engine.SConfig{Bound: 0, NShards: 1, Deadline: ctx.Deadline})
+		}
 		policyV6(ctx)
 		policyV4(ctx)
 	})
@@ -660,6 +739,13 @@ func init() {
 		sub := &engine.Ctx{Res: engine.NewResult("C05", ctx.Tier)}
 		if strings.HasPrefix(rp.Unit, "dial-pair") {
 			return engine.ReplayScenario(dialPairs(), rp)
+		}
+		if strings.HasPrefix(rp.Unit, "policy-history|") {
+			parts := strings.Split(strings.SplitN(rp.Unit, "#", 2)[0], "|")
+			if len(parts) != 3 {
+				return []*engine.Finding{{Sig: "BROKEN:bad-unit", Msg: rp.Unit}}
+			}
+			return engine.ReplayScenario([]*engine.Scenario{history(parts[1], parts[2])}, rp)
 		}
 		if strings.HasPrefix(rp.Unit, "first-use") {
 			return engine.ReplayScenario([]*engine.Scenario{firstUse()}, rp)
@@ -674,6 +760,16 @@ func init() {
 				ip = net.IP(b)
 			}
 			checkIP(sub, rp.Unit, ip)
+			if len(sub.Res.Findings) == 0 && pc.NShards > 0 {
+				// judged correctly on its own: repeat the run of the worker that reported it
+				again := &engine.Ctx{Res: engine.NewResult("C05", pc.Tier), Tier: pc.Tier, Shard: pc.Shard, NShards: pc.NShards, Deadline: time.Now().Add(10 * time.Minute)}
+				hk.Registry["C05"](again)
+				for _, f := range again.Res.Findings {
+					if f.Unit == rp.Unit && strings.Contains(string(f.Replay.Input), `"`+pc.IP+`"`) {
+						return []*engine.Finding{f}
+					}
+				}
+			}
 			return sub.Res.Findings
 		case "e2e-tcp", "e2e-udp":
 			var c e2eCase
